@@ -663,3 +663,18 @@ V("mutscan2: the previous-path search of diff looks at the first generation only
 
             # check if there is an existing hash in the other generations and verify
             original_hash_entry = history.find_original_hash_entry_for_path(history_relative_path)""", "R17.3")
+
+V("hand: verify binds a generator of the files' children once and consumes it per folder", ["C03"], C, """    found_single_file = False
+
+    for folder_path, children in post_order_lexicographic(root_path, ignore_spec.get_path_spec()):
+        for item_name, is_dir in children:
+            file_path = os.path.join(folder_path, item_name)
+            not_found_paths.discard(file_path)""", """    found_single_file = False
+    generations = iter(existing_history.hash_lists)
+
+    for folder_path, children in post_order_lexicographic(root_path, ignore_spec.get_path_spec()):
+        for item_name, is_dir in children:
+            for _generation in generations:
+                pass
+            file_path = os.path.join(folder_path, item_name)
+            not_found_paths.discard(file_path)""", "R3.13")
